@@ -760,10 +760,11 @@ Proof.
       { pose proof (sort_by_sorted (fun k : N => k) ks) as Hs. fold ks' in Hs.
         clear - Hs. induction Hs; constructor; [assumption|]. eapply Forall_impl; [|exact H]. intros b Hb. exact Hb. }
       clear - Hs G3'. induction Hs as [|k l Hs IH Hk]; [constructor|].
-      pose proof (Forall_inv G3') as Gk. pose proof (Forall_inv_tail G3') as Gl.
+      pose proof (Forall_inv G3') as Gk. pose proof (Forall_inv_tail G3') as Gl. cbv beta in Gk.
       cbn [map]. constructor; [apply IH; assumption|].
       rewrite Forall_map. rewrite Forall_forall in *. intros x Ix. unfold le_by, mand_num.
-      rewrite !key_of_name_of_key by (try specialize (Gl x Ix); lia). apply Hk. assumption. }
+      pose proof (Gl x Ix) as Gx. cbv beta in Gx.
+      rewrite !key_of_name_of_key by lia. apply Hk. assumption. }
     rewrite Ss. apply mand_loop_names; [assumption|].
     eapply Forall_impl; [|exact G3']. intros k Hk. split; [exact Hk|intros []].
   - (* alpn *)
@@ -819,4 +820,295 @@ Proof.
     destruct (Hp6 x Lx Wx Rx) as [Q1 Q2].
     cbn [map ip6_loop concat]. rewrite Q2, Q1. cbn [negb]. rewrite (IH Ga Ra). reflexivity.
   - contradiction.
+Qed.
+
+Lemma param_from_text_unfold : forall text name v k,
+  cut_at 61 text = Some (name, v) -> key_of_name name = Some k -> v <> [] ->
+  param_from_text orc text =
+  rbind (marshal orc k (trim_byte 34 v)) (fun d => if 65535 <? nlen d then Err E_TOOLONG else Ok (k, d)).
+Proof.
+  intros text name v k H1 H2 H3. unfold param_from_text. rewrite H1, H2.
+  destruct v; [contradiction|]. rewrite andb_false_r. reflexivity.
+Qed.
+
+Lemma param_roundtrip : forall v, good v -> rt_ok v -> nlen (snd (enc v)) <= 65535 ->
+  exists s, param_to_text orc (enc v) = Ok s /\ param_from_text orc s = Ok (enc v)
+            /\ has_byte 59 s = false /\ s <> [].
+Proof.
+  intros v G R L. destruct (value_roundtrip v G R) as (w & U & C & T & M).
+  pose proof (good_key_le v G) as Hk. destruct (name_clean (key_of v) Hk) as (N1 & N2 & _ & _).
+  exists (name_of_key (key_of v) ++ 61 :: 34 :: w ++ [34]).
+  split; [unfold param_to_text; rewrite key_of_enc, U; reflexivity|]. split; [|split].
+  - rewrite (param_from_text_unfold _ (name_of_key (key_of v)) (34 :: w ++ [34]) (key_of v));
+      [|apply cut_at_app; assumption|apply key_of_name_of_key; assumption|discriminate].
+    rewrite (trim_byte_quoted 34 w T), M.
+    cbn [rbind]. assert (E2 : (65535 <? nlen (snd (enc v))) = false) by lia. rewrite E2.
+    rewrite <- key_of_enc. destruct (enc v); reflexivity.
+  - rewrite has_byte_app. rewrite N2. simpl. rewrite has_byte_app, C. reflexivity.
+  - destruct (name_of_key (key_of v)); discriminate.
+Qed.
+
+Lemma params_roundtrip : forall d, Forall good d -> Forall rt_ok d ->
+  Forall (fun p => nlen (snd p) <= 65535) (map enc d) ->
+  exists segs, map_res (param_to_text orc) (map enc d) = Ok segs
+    /\ Forall2 (fun v s => param_from_text orc s = Ok (enc v)) d segs
+    /\ Forall (fun s => has_byte 59 s = false /\ s <> []) segs.
+Proof.
+  induction d as [|v d IH]; intros G R L.
+  - exists []. repeat split; constructor.
+  - pose proof (Forall_inv G) as Gv. pose proof (Forall_inv_tail G) as Gd.
+    pose proof (Forall_inv R) as Rv. pose proof (Forall_inv_tail R) as Rd.
+    cbn [map] in L. pose proof (Forall_inv L) as Lv. pose proof (Forall_inv_tail L) as Ld. cbv beta in Lv.
+    destruct (param_roundtrip v Gv Rv Lv) as (s & P1 & P2 & P3 & P4).
+    destruct (IH Gd Rd Ld) as (segs & I1 & I2 & I3).
+    exists (s :: segs). cbn [map map_res]. rewrite P1. cbn [rbind]. rewrite I1. cbn [rbind].
+    split; [reflexivity|]. split; constructor; try assumption. split; assumption.
+Qed.
+
+Lemma ft_loop_roundtrip : forall d segs acc,
+  Forall2 (fun v s => param_from_text orc s = Ok (enc v)) d segs ->
+  Forall (fun s => has_byte 59 s = false /\ s <> []) segs ->
+  NoDup (map key_of d) -> (forall k, In k (map key_of d) -> ~ In k (map fst acc)) ->
+  ft_loop orc segs acc = Ok (acc ++ map enc d).
+Proof.
+  induction d as [|v d IH]; intros segs acc F C Hn Hd.
+  - inversion F; subst. simpl. rewrite app_nil_r. reflexivity.
+  - inversion F as [|v0 y d0 l' Hy Hl]; subst.
+    pose proof (Forall_inv C) as [_ Cy]. pose proof (Forall_inv_tail C) as Cl.
+    destruct y as [|c0 y0]; [contradiction|].
+    assert (E : has_key (fst (enc v)) acc = false).
+    { destruct (has_key (fst (enc v)) acc) eqn:E; [|reflexivity]. exfalso. apply has_key_in in E.
+      rewrite key_of_enc in E. apply (Hd (key_of v)); [left; reflexivity|exact E]. }
+    change (ft_loop orc ((c0 :: y0) :: l') acc) with
+      (match param_from_text orc (c0 :: y0) with
+       | Err e => Err e
+       | Ok p => if has_key (fst p) acc then Err E_DUPKEY else ft_loop orc l' (acc ++ [p])
+       end).
+    rewrite Hy. cbv iota beta. rewrite E.
+    cbn [map] in Hn. apply NoDup_cons_iff in Hn. destruct Hn as [Hv Hn].
+    rewrite (IH l' (acc ++ [enc v]) Hl Cl Hn).
+    + rewrite <- app_assoc. reflexivity.
+    + intros k Ik. rewrite map_app. cbn [map]. rewrite key_of_enc. intro I. apply in_app_or in I.
+      destruct I as [I|[I|[]]]; [apply (Hd k); [right; exact Ik|exact I]|]. subst k. contradiction.
+Qed.
+
+Definition no_mapped6 (d : list sval) : Prop :=
+  forall a, In (VIp6 a) d -> Forall (fun x => ip_to4 x = None) a.
+
+(* ------------------------------------------------------------ C18_text_roundtrip_outside_finding *)
+Theorem text_roundtrip_outside_finding : forall t l d,
+  from_text orc t = Ok l -> declared (parse_ip orc) (b64_dec orc) t = Some d -> no_mapped6 d ->
+  exists s, to_text orc l = Ok s /\ from_text orc s = Ok l.
+Proof.
+  intros t l dc H Hd Nm.
+  destruct (accepted_sorted_form orc Hparse Hb64 t l H) as (d & d' & D1 & Ed' & El & Ec & G & S & Mp & L).
+  unfold declared in Hd. rewrite D1 in Hd. inversion Hd; subst dc. clear Hd.
+  assert (R : Forall rt_ok d').
+  { apply Forall_forall. intros v Iv. destruct v; simpl; try exact I.
+    apply Nm. rewrite Ec. change (VIp6 a) with (canon_val (VIp6 a)). apply in_map. exact Iv. }
+  destruct (params_roundtrip d' G R L) as (segs & T1 & T2 & T3).
+  exists (join 59 segs). split; [unfold to_text; subst l; rewrite T1; reflexivity|].
+  assert (Hn : NoDup (map key_of d')).
+  { clear - S. induction S as [|k l S IH Hk]; constructor; [|assumption].
+    intro I. rewrite Forall_forall in Hk. specialize (Hk k I). lia. }
+  assert (Fl : ft_loop orc (split_on 59 (join 59 segs)) [] = Ok (map enc d')).
+  { destruct segs as [|s0 segs'] eqn:Es.
+    - inversion T2; subst. reflexivity.
+    - rewrite split_join; [|discriminate|eapply Forall_impl; [|exact T3]; intros a Ha; apply Ha].
+      apply (ft_loop_roundtrip d' (s0 :: segs') [] T2 T3 Hn). intros k _ []. }
+  unfold from_text. rewrite Fl. cbn [rbind].
+  assert (Hn' : NoDup (map key_of d')) by exact Hn.
+  destruct (mand_check_spec d' G Hn') as [[M1 _]|[_ M2]]; [|contradiction].
+  rewrite M1. cbn [rbind]. f_equal. subst l. apply sort_by_sorted_id.
+  apply sorted_lt_le_by. rewrite map_fst_enc. exact S.
+Qed.
+
+End Roundtrip.
+
+(* ------------------------------------------------------------ C18_text_roundtrip_refuted (finding F8) *)
+(* ipv6hint=::ffff:1.2.3.4 *)
+Definition f8_text : bytes := [105;112;118;54;104;105;110;116;61;58;58;102;102;102;102;58;49;46;50;46;51;46;52].
+Definition f8_token : bytes := [58;58;102;102;102;102;58;49;46;50;46;51;46;52].   (* ::ffff:1.2.3.4 *)
+Definition f8_addr : bytes := [0;0;0;0;0;0;0;0;0;0;255;255;1;2;3;4].
+Definition f8_dotted : bytes := [49;46;50;46;51;46;52].                            (* 1.2.3.4 *)
+(* ipv6hint="1.2.3.4" *)
+Definition f8_printed : bytes := [105;112;118;54;104;105;110;116;61;34;49;46;50;46;51;46;52;34].
+
+(* for EVERY library behaviour that agrees with Go on two facts - ParseIP of the literal
+   gives the 16-byte v4-mapped address, and IP.String prints that address as dotted quad -
+   the accepted text f8_text is stored, printed as f8_printed, and the print is rejected *)
+Theorem text_roundtrip_refuted : forall orc,
+  parse_ip orc f8_token = Some f8_addr -> print_ip orc f8_addr = f8_dotted ->
+  from_text orc f8_text = Ok [(6, f8_addr)]
+  /\ to_text orc [(6, f8_addr)] = Ok f8_printed
+  /\ from_text orc f8_printed = Err E_IP6_NOCOLON.
+Proof.
+  intros orc Hp Hs. split; [|split].
+  - unfold from_text. change (split_on 59 f8_text) with [f8_text].
+    cbn [ft_loop f8_text]. fold f8_text.
+    assert (E : param_from_text orc f8_text = Ok (6, f8_addr)).
+    { unfold param_from_text. change (cut_at 61 f8_text) with (Some (n_ipv6hint, f8_token)).
+      cbv iota beta. change (key_of_name n_ipv6hint) with (Some 6). cbv iota beta.
+      change (trim_byte 34 f8_token) with f8_token.
+      change (marshal orc 6 f8_token) with (ip6_loop orc [f8_token]).
+      cbn [ip6_loop]. change (has_byte 58 f8_token) with true. cbn [negb]. rewrite Hp. reflexivity. }
+    rewrite E. reflexivity.
+  - unfold to_text, param_to_text. cbn [map_res fst snd rbind unmarshal].
+    change (unm_hint orc 16 f8_addr) with (Ok (join 124 (map (print_ip orc) [f8_addr]))).
+    cbn [map join rbind]. rewrite Hs. reflexivity.
+  - unfold from_text. change (split_on 59 f8_printed) with [f8_printed].
+    cbn [ft_loop f8_printed]. fold f8_printed.
+    assert (E : param_from_text orc f8_printed = Err E_IP6_NOCOLON).
+    { unfold param_from_text. change (cut_at 61 f8_printed) with (Some (n_ipv6hint, 34 :: f8_dotted ++ [34])).
+      cbv iota beta. change (key_of_name n_ipv6hint) with (Some 6). cbv iota beta.
+      change (trim_byte 34 (34 :: f8_dotted ++ [34])) with f8_dotted.
+      change (marshal orc 6 f8_dotted) with (ip6_loop orc [f8_dotted]).
+      cbn [ip6_loop]. change (has_byte 58 f8_dotted) with false. reflexivity. }
+    rewrite E. reflexivity.
+Qed.
+
+(* the same witness, closed: evaluated with a two-entry oracle table *)
+Definition f8_orc : oracles :=
+  mkO (fun s => if bytes_eqb s f8_token then Some f8_addr else None)
+      (fun a => if bytes_eqb a f8_addr then f8_dotted else [])
+      (fun _ => None) (fun _ => []).
+Lemma text_roundtrip_refuted_closed :
+  exists t l s, from_text f8_orc t = Ok l /\ to_text f8_orc l = Ok s /\ from_text f8_orc s = Err E_IP6_NOCOLON.
+Proof. exists f8_text, [(6, f8_addr)], f8_printed. vm_compute. repeat split; reflexivity. Qed.
+
+(* ------------------------------------------------------------ the oracle hypotheses are satisfiable *)
+Definition ex_shift (a : bytes) : bytes := map (fun x => x + 256) a.
+Definition ex_unshift (s : bytes) : option bytes :=
+  if forallb (fun x => (256 <=? x) && (x <? 512)) s then Some (map (fun x => x - 256) s) else None.
+Definition ex_parse (s : bytes) : option bytes :=
+  match s with
+  | [] => None
+  | x :: r =>
+    if x =? 58 then
+      match ex_unshift r with
+      | Some a => if (length a =? 16)%nat then Some a else None
+      | None => None
+      end
+    else
+      match ex_unshift s with
+      | Some a => if (length a =? 4)%nat then Some (v4_prefix ++ a) else None
+      | None => None
+      end
+  end.
+Definition ex_print (a : bytes) : bytes :=
+  if (length a =? 4)%nat then ex_shift a
+  else match ip_to4 a with Some b => ex_shift b | None => 58 :: ex_shift a end.
+Definition ex_orc : oracles := mkO ex_parse ex_print ex_unshift ex_shift.
+
+Lemma ex_unshift_shift : forall a, wf_bytes a -> ex_unshift (ex_shift a) = Some a.
+Proof.
+  intros a W. unfold ex_unshift, ex_shift.
+  assert (E : forallb (fun x => (256 <=? x) && (x <? 512)) (map (fun x => x + 256) a) = true).
+  { apply forallb_forall. intros y Iy. apply in_map_iff in Iy. destruct Iy as (x & Ex & Ix). subst y.
+    unfold wf_bytes in W. rewrite Forall_forall in W. specialize (W x Ix). lia. }
+  rewrite E. f_equal. rewrite map_map. rewrite <- (map_id a) at 2. apply map_ext. intros; lia.
+Qed.
+
+Lemma ex_unshift_wf : forall s a, ex_unshift s = Some a -> wf_bytes a /\ length a = length s.
+Proof.
+  unfold ex_unshift. intros s a H.
+  destruct (forallb (fun x => (256 <=? x) && (x <? 512)) s) eqn:E; [|discriminate]. inversion H; subst.
+  split; [|apply map_length]. unfold wf_bytes. rewrite Forall_map. apply Forall_forall. intros x Ix.
+  rewrite forallb_forall in E. specialize (E x Ix). lia.
+Qed.
+
+Lemma ex_shift_clean : forall a c, c < 256 -> has_byte c (ex_shift a) = false.
+Proof.
+  intros a c Hc. apply has_byte_false_in. intro I. unfold ex_shift in I. apply in_map_iff in I.
+  destruct I as (x & Ex & _). lia.
+Qed.
+
+Example oracle_hypotheses_satisfiable :
+  (forall s a, parse_ip ex_orc s = Some a -> length a = 16%nat /\ wf_bytes a)
+  /\ (forall s x, b64_dec ex_orc s = Some x -> wf_bytes x)
+  /\ (forall a, length a = 4%nat -> wf_bytes a -> parse_ip ex_orc (print_ip ex_orc a) = Some (v4_prefix ++ a))
+  /\ (forall a, length a = 16%nat -> wf_bytes a -> ip_to4 a = None ->
+        parse_ip ex_orc (print_ip ex_orc a) = Some a /\ has_byte 58 (print_ip ex_orc a) = true)
+  /\ (forall a, (length a = 4%nat \/ length a = 16%nat) -> wf_bytes a ->
+        has_byte 59 (print_ip ex_orc a) = false /\ has_byte 124 (print_ip ex_orc a) = false
+        /\ has_byte 34 (print_ip ex_orc a) = false)
+  /\ (forall x, wf_bytes x -> b64_dec ex_orc (b64_enc ex_orc x) = Some x
+        /\ has_byte 59 (b64_enc ex_orc x) = false /\ has_byte 34 (b64_enc ex_orc x) = false)
+  /\ (exists t l, from_text ex_orc t = Ok l /\ length l = 2%nat).
+Proof.
+  cbn [parse_ip print_ip b64_dec b64_enc ex_orc].
+  split; [|split; [|split; [|split; [|split; [|split]]]]].
+  - intros s a H. unfold ex_parse in H. destruct s as [|x r]; [discriminate|].
+    destruct (x =? 58).
+    + destruct (ex_unshift r) as [b|] eqn:E; [|discriminate].
+      destruct (length b =? 16)%nat eqn:L; [|discriminate]. inversion H; subst.
+      apply Nat.eqb_eq in L. split; [exact L|apply (ex_unshift_wf _ _ E)].
+    + destruct (ex_unshift (x :: r)) as [b|] eqn:E; [|discriminate].
+      destruct (length b =? 4)%nat eqn:L; [|discriminate].
+      apply Nat.eqb_eq in L.
+      assert (Q : length (v4_prefix ++ b) = 16%nat /\ wf_bytes (v4_prefix ++ b)).
+      { split; [rewrite app_length, L; reflexivity|].
+        apply wf_app. split; [|apply (ex_unshift_wf _ _ E)].
+        unfold wf_bytes, v4_prefix. repeat constructor; lia. }
+      inversion H; subst. exact Q.
+  - intros s x H. apply (ex_unshift_wf _ _ H).
+  - intros a L W. unfold ex_print. rewrite L. cbn [Nat.eqb].
+    do 4 (destruct a as [|? a]; [discriminate L|]). destruct a; [|discriminate L].
+    unfold ex_parse. cbn [ex_shift map].
+    assert (E : (n + 256 =? 58) = false) by lia. rewrite E.
+    change (n + 256 :: n0 + 256 :: n1 + 256 :: [n2 + 256]) with (ex_shift [n; n0; n1; n2]).
+    rewrite ex_unshift_shift by assumption. reflexivity.
+  - intros a L W T. unfold ex_print. rewrite L, T. cbn [Nat.eqb].
+    unfold ex_parse. rewrite N.eqb_refl. rewrite ex_unshift_shift by assumption. rewrite L.
+    split; [reflexivity|]. simpl. reflexivity.
+  - intros a L W. unfold ex_print.
+    destruct (length a =? 4)%nat; [repeat split; apply ex_shift_clean; lia|].
+    destruct (ip_to4 a); [repeat split; apply ex_shift_clean; lia|].
+    repeat split; simpl; apply ex_shift_clean; lia.
+  - intros x W. split; [apply ex_unshift_shift; assumption|]. split; apply ex_shift_clean; lia.
+  - (* alpn=h2;port=443 *)
+    exists [97;108;112;110;61;104;50;59;112;111;114;116;61;52;52;51].
+    eexists. split; [vm_compute; reflexivity|reflexivity].
+Qed.
+
+(* ------------------------------------------------------------ the fuel supplied by the model suffices *)
+Lemma rbind_not_fuel : forall {A B} (r : result A) (f : A -> result B),
+  r <> Err E_FUEL -> (forall a, f a <> Err E_FUEL) -> rbind r f <> Err E_FUEL.
+Proof. intros A B [a|e] f H1 H2; simpl; [apply H2|]. intro E. apply H1. inversion E. reflexivity. Qed.
+
+Lemma chunks_fuel : forall n fuel s, (0 < n)%nat -> (length s <= fuel)%nat -> chunks n fuel s <> Err E_FUEL.
+Proof.
+  intros n. induction fuel as [|f IH]; intros s Hn Hl.
+  - destruct s; [discriminate|simpl in Hl; lia].
+  - destruct s as [|x t]; [discriminate|]. cbn [chunks].
+    destruct (length (firstn n (x :: t)) <? n)%nat; [discriminate|].
+    apply rbind_not_fuel; [|discriminate]. apply IH; [assumption|].
+    rewrite skipn_length. cbn [length] in Hl |- *. lia.
+Qed.
+
+Lemma alpn_ids_fuel : forall fuel s, (length s <= fuel)%nat -> alpn_ids fuel s <> Err E_FUEL.
+Proof.
+  induction fuel as [|f IH]; intros s Hl.
+  - destruct s; [discriminate|simpl in Hl; lia].
+  - destruct s as [|x t]; [discriminate|]. cbn [alpn_ids].
+    destruct (nlen (firstn (N.to_nat x) t) <? x); [discriminate|].
+    apply rbind_not_fuel; [|discriminate]. apply IH. rewrite skipn_length. simpl in Hl. lia.
+Qed.
+
+Theorem model_fuel_suffices : forall orc k v, unmarshal orc k v <> Err E_FUEL.
+Proof.
+  intros orc k v. unfold unmarshal.
+  assert (C : forall n, (0 < n)%nat -> unm_hint orc n v <> Err E_FUEL).
+  { intros n Hn. unfold unm_hint. apply rbind_not_fuel; [apply chunks_fuel; [assumption|lia]|discriminate]. }
+  assert (E : k = 0 \/ k = 1 \/ k = 2 \/ k = 3 \/ k = 4 \/ k = 5 \/ k = 6 \/ 6 < k) by lia.
+  destruct E as [E|[E|[E|[E|[E|[E|[E|E]]]]]]]; try subst k.
+  - unfold unm_mandatory. apply rbind_not_fuel; [apply chunks_fuel; lia|discriminate].
+  - unfold unm_alpn. apply rbind_not_fuel; [apply alpn_ids_fuel; lia|discriminate].
+  - discriminate.
+  - unfold unm_port. destruct v as [|a [|b r]]; discriminate.
+  - apply C. lia.
+  - discriminate.
+  - apply C. lia.
+  - destruct k as [|p]; [lia|].
+    destruct p as [[[?|?|]|[?|?|]|]|[[?|?|]|[?|?|]|]|]; try lia; discriminate.
 Qed.
